@@ -62,9 +62,10 @@ PROPS = {
                 focus={'join', 'entityAdd', 'compAdd', 'action', 'assetAdd'},
                 topics=slice_of(['disconnect', 'join', 'receipt'], kinds=['outcome'],
                                 outs={'leaveBcast', 'entityDeleteBcast', 'sessionState', 'vikjaState', 'odalState'})),
-    'C07': dict(modules=['Hagall.Props.C07'], profiles=['join', 'mixed'], n=(240, 4000), focus={'join'},
+    'C07': dict(modules=['Hagall.Props.C07'], profiles=['join', 'mixed'], n=(240, 4000), focus={'join'}, tools=['drive', 'extract', 'wire'], extra=['wire_harness'],
                 topics=slice_of(['join', 'disconnect'], kinds=['state', 'gauge'], outs={'joinResp', 'error'})),
     'C10': dict(modules=['Hagall.Props.C10'], profiles=['join', 'mixed', 'comp', 'module'], n=(240, 4000), focus={'join', 'entityAdd', 'typeAdd', 'assetAdd'},
+                tools=['drive', 'extract', 'wire'], extra=['wire_harness'],
                 topics=slice_of(['join', 'entityAdd', 'typeAdd', 'typeGetName', 'typeGetId', 'assetAdd'], kinds=['state'], answer_only=True,
                                 outs={'joinResp', 'entityAddResp', 'typeAddResp', 'typeNameResp', 'typeIdResp', 'assetAddResp'})),
     'C12': dict(modules=['Hagall.Props.C12'], profiles=['comp', 'mixed'], n=(240, 4000), focus=set(COMP) | {'entityDelete'},
